@@ -76,6 +76,7 @@ func main() {
 	if v := os.Getenv("VERIF_REPO"); v != "" {
 		repoDir = v
 	}
+	sx.RepoRoot = repoDir
 	// use the Go toolchain /repo needs (go.mod: go 1.25.0), offline
 	if tcs, _ := filepath.Glob("/root/go/pkg/mod/golang.org/toolchain@v0.0.1-go1.25*.linux-amd64/bin"); len(tcs) > 0 {
 		os.Setenv("PATH", tcs[0]+":"+os.Getenv("PATH"))
